@@ -10,10 +10,12 @@ import random
 
 import impl
 import lib
+import iotie
 from lib import coq_list
 import c18_objs as O
 
 COQ_TARGETS = ["theories/Proofs/IterLemmas.vo", "theories/Model/IterEq.vo", "theories/Props/C18.vo"]
+COQ_TARGETS = COQ_TARGETS + [t for t in iotie.COQ_TARGETS if t not in COQ_TARGETS]
 THEOREMS = ["C18_items", "C18_values", "C18_full_repaired", "C18_once", "C18_nondestructive",
             "C18_strategy_per_class", "C18_pinned_peek_nonempty", "C18_refuted_namedtuple",
             "C18_refuted_empty_iter", "C18_refuted_signature_fields", "C18_refuted_private_slots",
@@ -258,6 +260,7 @@ def correspond(run: lib.Run):
     run.record_corr("iter", len(cases), [cases[i] for i in bad], nontriv, dist_all)
     run.samples.append({k: v for k, v in cases[min(len(cases) - 1, 60)].items()})
     run._c18_bad = [descs[i] for i in bad[:200]]
+    lib.run_tie(run, iotie)      # Core.itervalues/iteritems/load ARE these models (Props/IoBridge.v) + direct core-io stream
 
 
 # ----------------------------------------------------------------------------------
